@@ -250,6 +250,189 @@ func TestP2LongStrings(t *testing.T) {
 	rec.Exhaustive()
 }
 
+// ---------------------------------------------------------------------------
+// two fonts alive at the same time
+
+type pairCase struct {
+	X      *type1.Font      `json:"x"`
+	Y      *type1.Font      `json:"y"`
+	Format type1.FileFormat `json:"format"`
+}
+
+func writeBytes(f *type1.Font, format type1.FileFormat) ([]byte, error) {
+	var buf bytes.Buffer
+	err := f.Write(&buf, optionsFor(format))
+	return buf.Bytes(), err
+}
+
+// checkPair writes X and Y, reads Y, then X, and once more Y: each result
+// must equal the font its bytes were written from, the results of earlier
+// reads must still do so after the later ones, and the fonts handed to the
+// writer must be what they were.
+func checkPair(c *pairCase) string {
+	snapX, _ := json.Marshal(c.X)
+	snapY, _ := json.Marshal(c.Y)
+	bx, err := writeBytes(c.X, c.Format)
+	if err != nil {
+		return "Write(X) fails: " + err.Error()
+	}
+	by, err := writeBytes(c.Y, c.Format)
+	if err != nil {
+		return "Write(Y) fails: " + err.Error()
+	}
+	bx0 := append([]byte{}, bx...)
+	gy, err := type1.Read(bytes.NewReader(by))
+	if err != nil {
+		return "Read(Write(Y)) fails: " + err.Error()
+	}
+	if msg := t1gen.DiffFont(t1gen.Normalize(c.Y), gy, tol); msg != "" {
+		return formatNames[c.Format] + ": Y: " + msg
+	}
+	gx, err := type1.Read(bytes.NewReader(bx))
+	if err != nil {
+		return "Read(Write(X)) fails: " + err.Error()
+	}
+	if msg := t1gen.DiffFont(t1gen.Normalize(c.X), gx, tol); msg != "" {
+		return formatNames[c.Format] + ": X, written before and read after another font (Write X, Write Y, Read Y, Read X): " + msg
+	}
+	gy2, err := type1.Read(bytes.NewReader(by))
+	if err != nil {
+		return "second Read(Write(Y)) fails: " + err.Error()
+	}
+	if msg := t1gen.DiffFont(t1gen.Normalize(c.Y), gy2, tol); msg != "" {
+		return formatNames[c.Format] + ": Y read a second time, after X: " + msg
+	}
+	if msg := t1gen.DiffFont(t1gen.Normalize(c.Y), gy, tol); msg != "" {
+		return formatNames[c.Format] + ": the font returned by the first Read(Write(Y)) changed while other fonts were read: " + msg
+	}
+	if msg := t1gen.DiffFont(t1gen.Normalize(c.X), gx, tol); msg != "" {
+		return formatNames[c.Format] + ": the font returned by Read(Write(X)) changed while another font was read: " + msg
+	}
+	if !bytes.Equal(bx, bx0) {
+		return "the bytes written for X changed after they were written"
+	}
+	if a, _ := json.Marshal(c.X); !bytes.Equal(a, snapX) {
+		return "the font X handed to Write is not what it was before"
+	}
+	if a, _ := json.Marshal(c.Y); !bytes.Equal(a, snapY) {
+		return "the font Y handed to Write is not what it was before"
+	}
+	// a result that is modified by its owner must not show in a later read
+	for i := range gy.Encoding {
+		gy.Encoding[i] = "zz"
+	}
+	for _, g := range gy.Glyphs {
+		for i := range g.Cmds {
+			for k := range g.Cmds[i].Args {
+				g.Cmds[i].Args[k] = -12345
+			}
+		}
+		for i := range g.HStem {
+			g.HStem[i] = -77
+		}
+	}
+	gx2, err := type1.Read(bytes.NewReader(bx))
+	if err != nil {
+		return "second Read(Write(X)) fails: " + err.Error()
+	}
+	if msg := t1gen.DiffFont(t1gen.Normalize(c.X), gx2, tol); msg != "" {
+		return formatNames[c.Format] + ": X read after the caller overwrote the font returned by an earlier Read: " + msg
+	}
+	return ""
+}
+
+// sibling derives a second font from f: the same header values and encoding,
+// some of the glyphs left out and one added, so that codes name different
+// glyphs in the two fonts.
+func sibling(t *rapid.T, f *type1.Font) *type1.Font {
+	g := *f
+	g.Glyphs = map[string]*type1.Glyph{}
+	var names []string
+	for n := range f.Glyphs {
+		names = append(names, n)
+	}
+	sort.Strings(names)
+	for _, n := range names {
+		if n != ".notdef" && rapid.IntRange(0, 2).Draw(t, "drop") == 0 {
+			continue
+		}
+		g.Glyphs[n] = f.Glyphs[n]
+	}
+	extra := &type1.Glyph{WidthX: 333}
+	extra.MoveTo(1, 2)
+	extra.LineTo(30, 2)
+	extra.LineTo(30, 40)
+	extra.ClosePath()
+	g.Glyphs[rapid.SampledFrom([]string{"zeta", "A", "B", "space", "Aacute"}).Draw(t, "extra")] = extra
+	if f.Encoding != nil {
+		g.Encoding = append([]string{}, f.Encoding...)
+	}
+	return &g
+}
+
+func TestP3Pairs(t *testing.T) {
+	rec := ev.New("C09", "pairs")
+	defer rec.Finish(t)
+	rec.Rule("two fonts alive at once: X from the font generator of the roundtrip part and Y either a sibling of X (same header and encoding vector contents, some glyphs left out, one added - so the same code names a present glyph in one font and an absent one in the other) or an independent second font; per format the history Write X, Write Y, Read Y, Read X, Read Y; (part 'first' runs three hand-made standard-encoded pairs before anything else is read in the process.) Oracle: each Read result equals the font its bytes were written from (the roundtrip part's comparison); the results of the earlier reads still do after the later reads; the written bytes and the fonts handed to Write are unchanged (JSON snapshot); and after the caller overwrites every encoding entry, coordinate and stem of one returned font, another Read of X still equals X. Non-trivial: both fonts have >= 2 glyphs; distinct by content.")
+	opts := findings(rec)
+	ev.SetupRapid(4000, 120000)
+	rapid.Check(t, func(t *rapid.T) {
+		x, _ := t1gen.GenFont(t, opts)
+		var y *type1.Font
+		sib := rapid.IntRange(0, 2).Draw(t, "sibling") > 0
+		if sib {
+			if rapid.Bool().Draw(t, "stdpair") {
+				// both fonts refer to the standard encoding, and glyphs it
+				// encodes are present in one font only
+				x.Encoding = append([]string{}, t1ref.StandardEncoding[:]...)
+				for _, n := range []string{"A", "B", "C", "space", "zero"} {
+					if _, ok := x.Glyphs[n]; !ok && rapid.IntRange(0, 3).Draw(t, "addstd") > 0 {
+						g := &type1.Glyph{WidthX: 400}
+						g.MoveTo(5, 5)
+						g.LineTo(50, 5)
+						g.LineTo(50, 70)
+						g.ClosePath()
+						x.Glyphs[n] = g
+					}
+				}
+				rec.Class("sibling with shared standard names")
+			}
+			y = sibling(t, x)
+			rec.Class("sibling")
+		} else {
+			y, _ = t1gen.GenFont(t, opts)
+			rec.Class("independent")
+		}
+		if rapid.Bool().Draw(t, "swap") {
+			x, y = y, x
+		}
+		format := formats[rapid.IntRange(0, len(formats)-1).Draw(t, "format")]
+		c := &pairCase{X: x, Y: y, Format: format}
+		rec.Eval(1)
+		if len(x.Glyphs) >= 2 && len(y.Glyphs) >= 2 {
+			raw, _ := json.Marshal(c)
+			rec.NonTrivialHash(ev.Hash(string(raw)))
+		}
+		isStd := func(f *type1.Font) bool {
+			if len(f.Encoding) != 256 {
+				return false
+			}
+			for i, n := range f.Encoding {
+				if n != t1ref.StandardEncoding[i] {
+					return false
+				}
+			}
+			return true
+		}
+		if isStd(x) && isStd(y) {
+			rec.Class("both standard-encoded")
+		}
+		if msg := ev.Safe(func() string { return checkPair(c) }); msg != "" {
+			rec.Fail(t, msg, map[string]any{"pair": c})
+		}
+	})
+}
+
 func TestReplay(t *testing.T) {
 	rc, err := ev.LoadReplay()
 	if err != nil {
@@ -257,6 +440,15 @@ func TestReplay(t *testing.T) {
 	}
 	if rc == nil {
 		t.Skip("no VERIF_REPLAY")
+	}
+	var wrapped struct {
+		Pair *pairCase `json:"pair"`
+	}
+	if json.Unmarshal(rc.Case, &wrapped) == nil && wrapped.Pair != nil {
+		if msg := ev.Safe(func() string { return checkPair(wrapped.Pair) }); msg != "" {
+			t.Fatalf("%s", msg)
+		}
+		return
 	}
 	var c c09case
 	if err := json.Unmarshal(rc.Case, &c); err != nil {
